@@ -7,10 +7,13 @@
     syntax, 8 function attribute); [rule_*] are the models of the rules (Model/Lowering.v:
     the node rewrites; Model/Visit.v: the traversal, run with fuel [w_block b]), tied to the
     Rust rules on every run by the correspondence stream of vlib/lowering_gen.py.
-    remove_continue is not modelled (post-order rule with a loop stack): its census is
-    observed on the real rule's output only (vlib/c07.py). *)
-From DL Require Import Lib.Bytes Lua.Syntax Lua.Census Model.Visit Model.Lowering
-  Proof.LoweringCensusRules Proof.LoweringCensusAll.
+    [remove_continue_block] is the model of remove_continue (Model/RemoveContinue.v: the
+    post-order traversal with its loop stack and loop counter), tied to the Rust rule by tree
+    equality on every run (vlib/continue_gen.py).  [continue_in_loops b]: every [continue] of
+    [b] is reached under a loop frame of the rule's stack (true for every valid Luau program);
+    [stray_continues b]: the number of those that are not. *)
+From DL Require Import Lib.Bytes Lua.Syntax Lua.Census Model.Visit Model.Lowering Model.RemoveContinue
+  Proof.LoweringCensusRules Proof.LoweringCensusAll Proof.RemoveContinue Proof.RemoveContinueAll.
 Open Scope N_scope.
 
 Theorem C07_removes_compound_assign : forall b, feature 0 (rule_compound_assign b) = 0.
@@ -54,6 +57,45 @@ Proof. exact removes_attribute. Qed.
 Print Assumptions C07_removes_attribute.
 Check C07_removes_attribute : forall b, feature 8 (rule_attribute b) = 0.
 
+(** remove_continue: the [continue] statements left in the output are exactly the stray ones
+    of the input (all inputs, any size and depth) ... *)
+Theorem C07_remove_continue_leaves_stray : forall b, feature 1 (remove_continue_block b) = stray_continues b.
+Proof. exact remove_continue_leaves_stray. Qed.
+Print Assumptions C07_remove_continue_leaves_stray.
+Check C07_remove_continue_leaves_stray : forall b, feature 1 (remove_continue_block b) = stray_continues b.
+
+(** ... so it removes every [continue] of a program whose [continue]s are all in loops, and of
+    no other program: the carve-out is exact *)
+Theorem C07_removes_continue : forall b, continue_in_loops b = true -> feature 1 (remove_continue_block b) = 0.
+Proof. exact removes_continue. Qed.
+Print Assumptions C07_removes_continue.
+Check C07_removes_continue : forall b, continue_in_loops b = true -> feature 1 (remove_continue_block b) = 0.
+
+Theorem C07_removes_continue_iff : forall b, feature 1 (remove_continue_block b) = 0 <-> continue_in_loops b = true.
+Proof. exact removes_continue_iff. Qed.
+Print Assumptions C07_removes_continue_iff.
+Check C07_removes_continue_iff : forall b, feature 1 (remove_continue_block b) = 0 <-> continue_in_loops b = true.
+
+(** the unconditional statement is false for the code as it is ([continue] outside a loop) *)
+Theorem C07_removes_continue_refuted : exists b, feature 1 (remove_continue_block b) <> 0.
+Proof. exact removes_continue_refuted. Qed.
+Print Assumptions C07_removes_continue_refuted.
+Check C07_removes_continue_refuted : exists b, feature 1 (remove_continue_block b) <> 0.
+
+(** it counts every other construct in the output exactly as in the input, and introduces
+    none of the nine *)
+Theorem C07_remove_continue_keeps : forall j b, (j < 9)%nat -> j <> 1%nat ->
+  feature j (remove_continue_block b) = feature j b.
+Proof. exact remove_continue_keeps. Qed.
+Print Assumptions C07_remove_continue_keeps.
+Check C07_remove_continue_keeps : forall j b, (j < 9)%nat -> j <> 1%nat ->
+  feature j (remove_continue_block b) = feature j b.
+
+Theorem C07_preserves_continue : forall j b, (j < 9)%nat -> feature j b = 0 -> feature j (remove_continue_block b) = 0.
+Proof. exact preserves_continue. Qed.
+Print Assumptions C07_preserves_continue.
+Check C07_preserves_continue : forall j b, (j < 9)%nat -> feature j b = 0 -> feature j (remove_continue_block b) = 0.
+
 (** no modelled rule introduces any of the nine constructs: each one removes its own and
     keeps every absent construct absent ([lowers]) *)
 Theorem C07_rules_lower : forall p, In p lowering_rules ->
@@ -77,6 +119,47 @@ Check C07_all_lowered : forall rs,
   (forall p, In p rs -> In p lowering_rules) ->
   (forall j, (j < 9)%nat -> j <> 1%nat -> In j (map fst rs)) ->
   forall b, feature 1 b = 0 -> lua51_tree (apply_rules rs b) = true.
+
+(** all NINE rules ([lowering_rules9] = remove_continue and the eight above) *)
+Theorem C07_rules9_lower : forall p, In p lowering_rules9 ->
+  (forall b, continue_in_loops b = true -> feature (fst p) (snd p b) = 0) /\
+  (forall j b, (j < 9)%nat -> feature j b = 0 -> feature j (snd p b) = 0).
+Proof. exact lowering_rules9_lower. Qed.
+Print Assumptions C07_rules9_lower.
+Check C07_rules9_lower : forall p, In p lowering_rules9 ->
+  (forall b, continue_in_loops b = true -> feature (fst p) (snd p b) = 0) /\
+  (forall j b, (j < 9)%nat -> feature j b = 0 -> feature j (snd p b) = 0).
+
+(** remove_continue at ANY position among the others (any order and multiplicity before and
+    after it, every construct covered): a Lua 5.1 tree, PROVIDED the tree that reaches
+    remove_continue is in its domain.  Partial: what is missing for the unconditional "any
+    order of the nine" is that the other eight rules preserve [continue_in_loops]. *)
+Theorem C07_all_lowered9_partial : forall rs1 rs2,
+  (forall p, In p rs1 -> In p lowering_rules) ->
+  (forall p, In p rs2 -> In p lowering_rules9) ->
+  (forall j, (j < 9)%nat -> j <> 1%nat -> In j (map fst (rs1 ++ rs2))) ->
+  forall b, continue_in_loops (apply_rules rs1 b) = true ->
+  lua51_tree (apply_rules (rs1 ++ rule_continue :: rs2) b) = true.
+Proof. exact all_lowered9_at. Qed.
+Print Assumptions C07_all_lowered9_partial.
+Check C07_all_lowered9_partial : forall rs1 rs2,
+  (forall p, In p rs1 -> In p lowering_rules) ->
+  (forall p, In p rs2 -> In p lowering_rules9) ->
+  (forall j, (j < 9)%nat -> j <> 1%nat -> In j (map fst (rs1 ++ rs2))) ->
+  forall b, continue_in_loops (apply_rules rs1 b) = true ->
+  lua51_tree (apply_rules (rs1 ++ rule_continue :: rs2) b) = true.
+
+(** remove_continue first, then the others in any order: unconditional on valid programs *)
+Theorem C07_all_lowered9_continue_first : forall rs,
+  (forall p, In p rs -> In p lowering_rules9) ->
+  (forall j, (j < 9)%nat -> j <> 1%nat -> In j (map fst rs)) ->
+  forall b, continue_in_loops b = true -> lua51_tree (apply_rules (rule_continue :: rs) b) = true.
+Proof. exact all_lowered9_continue_first. Qed.
+Print Assumptions C07_all_lowered9_continue_first.
+Check C07_all_lowered9_continue_first : forall rs,
+  (forall p, In p rs -> In p lowering_rules9) ->
+  (forall j, (j < 9)%nat -> j <> 1%nat -> In j (map fst rs)) ->
+  forall b, continue_in_loops b = true -> lua51_tree (apply_rules (rule_continue :: rs) b) = true.
 
 (** the fuel the rules are run with is sufficient: any larger fuel gives the same tree *)
 Theorem C07_fuel_sufficient : forall H, In H lowering_hooks ->
